@@ -139,6 +139,79 @@ class QP:
 X = QP([0, 1])
 
 
+class Dual:
+    """forward-mode automatic differentiation (value, derivative) — runs prysm's value routines that use sqrt/cos/sin"""
+    __array_priority__ = 1000
+
+    def __init__(self, v, d=0.0):
+        self.v, self.d = float(v), float(d)
+
+    @staticmethod
+    def lift(o):
+        if isinstance(o, Dual):
+            return o
+        if isinstance(o, np.ndarray) and o.ndim == 0:
+            return Dual.lift(o.item())
+        if isinstance(o, Fraction):
+            return Dual(float(o))
+        return Dual(float(o))
+
+    def __add__(self, o):
+        o = Dual.lift(o)
+        return Dual(self.v + o.v, self.d + o.d)
+    __radd__ = __add__
+
+    def __neg__(self):
+        return Dual(-self.v, -self.d)
+
+    def __sub__(self, o):
+        o = Dual.lift(o)
+        return Dual(self.v - o.v, self.d - o.d)
+
+    def __rsub__(self, o):
+        return Dual.lift(o) - self
+
+    def __mul__(self, o):
+        o = Dual.lift(o)
+        return Dual(self.v * o.v, self.v * o.d + self.d * o.v)
+    __rmul__ = __mul__
+
+    def __truediv__(self, o):
+        o = Dual.lift(o)
+        return Dual(self.v / o.v, (self.d * o.v - self.v * o.d) / (o.v * o.v))
+
+    def __rtruediv__(self, o):
+        return Dual.lift(o) / self
+
+    def __pow__(self, k):
+        if isinstance(k, (int, np.integer)):
+            out = Dual(1.0)
+            for _ in range(int(k)):
+                out = out * self
+            return out
+        k = float(k)
+        return Dual(self.v ** k, k * self.v ** (k - 1) * self.d)
+
+    def sqrt(self):
+        r = np.sqrt(self.v)
+        return Dual(r, self.d / (2 * r))
+
+    def cos(self):
+        return Dual(np.cos(self.v), -np.sin(self.v) * self.d)
+
+    def sin(self):
+        return Dual(np.sin(self.v), np.cos(self.v) * self.d)
+
+    shape = ()
+    dtype = np.dtype(object)
+
+
+def ad(f, x):
+    """(value, derivative) of the python function f at the float x"""
+    out = Dual.lift(f(Dual(x, 1.0)))
+    return out.v, out.d
+
+
 def _impl():
     from prysm import polynomials as P
     qp = importlib.import_module('prysm.polynomials.qpoly')
@@ -400,11 +473,85 @@ def pred(case):
             ok = close(np.ravel(z), ez) and close(np.ravel(dr), edr) and close(np.ravel(dt), edt)
             return ok, (f'z={np.ravel(z)[:2]} sum={ez[:2]}  dr={np.ravel(dr)[:2]} d/du={edr[:2]}  '
                         f'dt={np.ravel(dt)[:2]} d/dt={edt[:2]}')
+        if it in ('sconic', 'sdircos', 'soac', 'sq2d'):
+            return pred_surface(case)
     except C.ToolError:
         raise
     except Exception as ex:
         return False, f'raised {type(ex).__name__}: {ex}'
     raise C.ToolError(f'unknown item {it}')
+
+
+def _surf():
+    return importlib.import_module('prysm.x.raytracing.surfaces')
+
+
+def q2d_value(qp, cm0, ams, bms, u, t):
+    """sum c_nm Q2d(n, m, u, t) with prysm's value routine (u or t may be a Dual)"""
+    tot = 0.0
+    for n, c in enumerate(cm0):
+        if c:
+            tot = tot + c * qp.Q2d(n, 0, u, t)
+    for k, a in enumerate(ams):
+        for n, c in enumerate(a):
+            if c:
+                tot = tot + c * qp.Q2d(n, k + 1, u, t)
+    for k, b in enumerate(bms):
+        for n, c in enumerate(b):
+            if c:
+                tot = tot + c * qp.Q2d(n, -(k + 1), u, t)
+    return tot
+
+
+def pred_surface(case):
+    S = _surf()
+    P, qp, J = _impl()
+    it = case['item']
+    c, k = case['c'], case['kappa']
+    if it == 'sconic':
+        rho = np.asarray(case['rho'], dtype=float)
+        if case.get('sphere'):
+            got = S.sphere_sag_der(c, rho)
+            exp = [ad(lambda r: S.sphere_sag(c, r * r), v)[1] for v in rho]
+            name = 'sphere_sag_der'
+        else:
+            got = S.conic_sag_der(c, k, rho)
+            exp = [ad(lambda r: S.conic_sag(c, k, r * r), v)[1] for v in rho]
+            name = 'conic_sag_der'
+        return close(got, exp), f'{name}={np.ravel(got)[:3]} derivative of the sag={np.asarray(exp)[:3]}'
+    if it == 'sdircos':
+        rho = np.asarray(case['rho'], dtype=float)
+        got = S.der_direction_cosine_spheroid(c, k, rho)
+        exp = [ad(lambda r: 1 / S.phi_spheroid(c, k, r * r), v)[1] for v in rho]
+        return close(got, exp), f'der_direction_cosine_spheroid={np.ravel(got)[:3]} derivative of 1/phi={np.asarray(exp)[:3]}'
+    r = np.asarray(case['r'], dtype=float)
+    t = np.asarray(case['t'], dtype=float)
+    dx, dy = case['dx'], case['dy']
+    if it == 'soac':
+        dr, dt = S.off_axis_conic_der(c, k, r, t, dx, dy)
+        sr, st = S.off_axis_conic_sigma_der(c, k, r, t, dx, dy)
+        edr = [ad(lambda q: S.off_axis_conic_sag(c, k, q, tv, dx, dy), rv)[1] for rv, tv in zip(r, t)]
+        edt = [ad(lambda q: S.off_axis_conic_sag(c, k, rv, q, dx, dy), tv)[1] for rv, tv in zip(r, t)]
+        esr = [ad(lambda q: 1 / S.off_axis_conic_sigma(c, k, q, tv, dx, dy), rv)[1] for rv, tv in zip(r, t)]
+        est = [ad(lambda q: 1 / S.off_axis_conic_sigma(c, k, rv, q, dx, dy), tv)[1] for rv, tv in zip(r, t)]
+        ok = close(dr, edr) and close(dt, edt) and close(sr, esr) and close(st, est)
+        return ok, (f'off_axis_conic_der=({np.ravel(dr)[:2]}, {np.ravel(dt)[:2]}) d(sag)=({np.asarray(edr)[:2]}, {np.asarray(edt)[:2]}); '
+                    f'off_axis_conic_sigma_der=({np.ravel(sr)[:2]}, {np.ravel(st)[:2]}) d(1/sigma)=({np.asarray(esr)[:2]}, {np.asarray(est)[:2]})')
+    if it == 'sq2d':
+        Rn = case['R']
+        x, y = (r * np.cos(t))[None, :], (r * np.sin(t))[None, :]
+        z, zr, zt = S.Q2d_and_der(case['cm0'], case['ams'], case['bms'], x, y, Rn, c, k, dx, dy)
+
+        def val(rv, tv):
+            return q2d_value(qp, case['cm0'], case['ams'], case['bms'], rv / Rn, tv) / S.off_axis_conic_sigma(c, k, rv, tv, dx, dy) \
+                + S.off_axis_conic_sag(c, k, rv, tv, dx, dy)
+        ez = [Dual.lift(val(rv, tv)).v for rv, tv in zip(r, t)]
+        ezr = [ad(lambda q: val(q, tv), rv)[1] for rv, tv in zip(r, t)]
+        ezt = [ad(lambda q: val(rv, q), tv)[1] for rv, tv in zip(r, t)]
+        ok = close(np.ravel(z), ez) and close(np.ravel(zr), ezr) and close(np.ravel(zt), ezt)
+        return ok, (f'Q2d_and_der=({np.ravel(z)[:2]}, {np.ravel(zr)[:2]}, {np.ravel(zt)[:2]}) sag and its derivatives='
+                    f'({np.asarray(ez)[:2]}, {np.asarray(ezr)[:2]}, {np.asarray(ezt)[:2]})')
+    raise C.ToolError(it)
 
 
 # ------------------------------------------------------------------------------------------------
@@ -775,6 +922,101 @@ def correspondence(ctx):
             if exact and not close(vals[:3], vals[3:], 1e-7):
                 ctx.disagree('zzq2d', case, 'model assembly', f'{vals[:3]} != model formal {vals[3:]}', 'model self-check')
         add(q2d_line(qp, 'zzq2d', w, u, t, cm0, ams, bms, mode='q' if exact else 'f'), chk)
+
+    # ------------------------------------------------ conic base surfaces and Q2d_and_der (x/raytracing/surfaces.py)
+    S = _surf()
+    kappas = [-2.5, -1.0, -0.7, 0.0, 0.6, 1.3]
+    for ci in range(ctx.scale(36, 300)):
+        c = float(rng.choice([-1, 1]) * rng.uniform(0.01, 0.08))
+        k = kappas[ci % len(kappas)]
+        lim = 0.9 / (max(abs(1 + k), abs(k), 0.2) * c * c)        # keeps both radicands >= 0.1
+        rmax = min(6.0, 0.5 * np.sqrt(lim))
+        rho = rng.uniform(0.05, 1.0, 3) * rmax
+        sphere = ci % 6 == 3
+        case = {'item': 'sconic', 'c': c, 'kappa': 0.0 if sphere else k, 'rho': rho.tolist(), 'sphere': sphere}
+        ctx.case('sconic', case, nontrivial=True, tag='sphere' if sphere else f'kappa{k}')
+        run_pred('sconic', case)
+        kk = case['kappa']
+        phi = np.sqrt(1 - (1 + kk) * c * c * rho * rho)
+        try:
+            if sphere:
+                got = (np.asarray(S.sphere_sag(c, rho * rho)), np.asarray(S.sphere_sag_der(c, rho)))
+            else:
+                got = (np.asarray(S.conic_sag(c, kk, rho * rho)), np.asarray(S.conic_sag_der(c, kk, rho)))
+        except Exception as ex:
+            got = f'raised {type(ex).__name__}: {ex}'
+
+        def chk(rep, case=case, got=got):
+            ms, md = (C.w2f(v) for v in rep.split())
+            if isinstance(got, str) or not close(got[0][0], ms) or not close(got[1][0], md):
+                ctx.disagree('sconic', case, got if isinstance(got, str) else [float(got[0][0]), float(got[1][0])], [ms, md])
+        add(f'f surf conic {C.f2w(c)} {C.f2w(kk)} {C.f2w(rho[0])} {C.f2w(phi[0])}', chk)
+
+        case = {'item': 'sdircos', 'c': c, 'kappa': k, 'rho': rho.tolist()}
+        ctx.case('sdircos', case, nontrivial=True, tag=f'kappa{k}')
+        run_pred('sdircos', case)
+        phi = np.sqrt(1 - (1 + k) * c * c * rho * rho)
+        try:
+            got = np.asarray(S.der_direction_cosine_spheroid(c, k, rho))
+        except Exception as ex:
+            got = f'raised {type(ex).__name__}: {ex}'
+
+        def chk(rep, case=case, got=got):
+            md = C.w2f(rep.split()[0])
+            if isinstance(got, str) or not close(got[0], md):
+                ctx.disagree('sdircos', case, got if isinstance(got, str) else float(got[0]), md)
+        add(f'f surf dircos {C.f2w(c)} {C.f2w(k)} {C.f2w(rho[0])} {C.f2w(phi[0])}', chk)
+
+        # off-axis sections: shift along x, along y, or none
+        sh = float(rng.uniform(0.2, 0.5) * rmax)
+        dx, dy = [(sh, 0.0), (0.0, sh), (0.0, 0.0), (-sh, 0.0)][ci % 4]
+        r = rng.uniform(0.05, 0.45, 3) * rmax
+        t = rng.uniform(-3.1, 3.1, 3)
+        case = {'item': 'soac', 'c': c, 'kappa': k, 'r': r.tolist(), 't': t.tolist(), 'dx': dx, 'dy': dy}
+        ctx.case('soac', case, nontrivial=True, tag=f'kappa{k}/' + ('dx' if dx else 'dy' if dy else 'centred'))
+        run_pred('soac', case)
+        s_ = dx if dx != 0 else dy
+        ct, ctp = (np.cos(t), -np.sin(t)) if dx != 0 else (np.sin(t), np.cos(t))
+        A = r * r + 2 * s_ * r * ct + s_ * s_
+        phi = np.sqrt(1 - (1 + k) * c * c * A)
+        psi = np.sqrt(1 - k * c * c * A)
+        try:
+            got = [np.asarray(S.off_axis_conic_sag(c, k, r, t, dx, dy)), *map(np.asarray, S.off_axis_conic_der(c, k, r, t, dx, dy)),
+                   np.asarray(S.off_axis_conic_sigma(c, k, r, t, dx, dy)), *map(np.asarray, S.off_axis_conic_sigma_der(c, k, r, t, dx, dy))]
+        except Exception as ex:
+            got = f'raised {type(ex).__name__}: {ex}'
+
+        def chk(rep, case=case, got=got):
+            vals = [C.w2f(v) for v in rep.split()]
+            if isinstance(got, str) or not close([float(g[0]) for g in got], vals[1:]):
+                ctx.disagree('soac', case, got if isinstance(got, str) else [float(g[0]) for g in got], vals[1:])
+        add('f surf oac ' + ' '.join(C.f2w(v) for v in (c, k, r[0], s_, ct[0], ctp[0], phi[0], psi[0])), chk)
+
+        # Q-freeform on that base
+        cm0, ams, bms = q2d_content(rng, ['cos', 'sin', 'mixed', 'holes', 'ragged'][ci % 5], 3, 4)
+        Rn = float(1.05 * 0.45 * rmax)
+        case = {'item': 'sq2d', 'c': c, 'kappa': k, 'r': r.tolist(), 't': t.tolist(), 'dx': dx, 'dy': dy, 'R': Rn,
+                'cm0': cm0, 'ams': ams, 'bms': bms}
+        ctx.case('sq2d', case, nontrivial=True, tag=f'kappa{k}/' + ('dx' if dx else 'dy' if dy else 'centred'))
+        run_pred('sq2d', case)
+        try:
+            x, y = (r * np.cos(t))[None, :], (r * np.sin(t))[None, :]
+            Z = [np.ravel(v) for v in S.Q2d_and_der(cm0, ams, bms, x, y, Rn, c, k, dx, dy)]
+            zq = [np.ravel(v) for v in qp.compute_z_zprime_Q2d(cm0, ams, bms, r / Rn, t)]
+            base = np.ravel(S.off_axis_conic_sag(c, k, r, t, dx, dy))
+            bd = [np.ravel(v) for v in S.off_axis_conic_der(c, k, r, t, dx, dy)]
+            sd = [np.ravel(v) for v in S.off_axis_conic_sigma_der(c, k, r, t, dx, dy)]
+            args = [psi[0] / phi[0], zq[0][0], zq[1][0], zq[2][0], sd[0][0], sd[1][0], base[0], bd[0][0], bd[1][0], Rn]
+            got = [float(Z[0][0]), float(Z[1][0]), float(Z[2][0])]
+        except Exception as ex:
+            got = f'raised {type(ex).__name__}: {ex}'
+            args = [0.0] * 10
+
+        def chk(rep, case=case, got=got):
+            vals = [C.w2f(v) for v in rep.split()]
+            if isinstance(got, str) or not close(got, vals):
+                ctx.disagree('sq2d', case, got, vals)
+        add('f surf asm ' + ' '.join(C.f2w(v) for v in args), chk)
 
     replies = C.lean_driver('C09', lines)
     for rep, fn in zip(replies, todo):
